@@ -33,10 +33,11 @@ Comp2 == {SliceOf(x.t, <<x, y>>, FALSE) : x \in TakeN(Comp1, 6), y \in TakeN(Com
                MapOf(GStruct, [a |-> CHOOSE s \in Structs : TRUE], FALSE)}
          \cup {[t |-> GCty, v |-> v] : v \in {NumV(4), Unk(TStr, NoRf), Null(TBool), SeqV(TList(TNum), <<NumV(0)>>)}}
 Comp2Typed == {x \in Comp2 : x.t.g # "slice" \/ x.vs = <<>> \/ \A i \in 1..Len(x.vs) : x.vs[i].t = x.t.e}
-RtLines == {[k |-> "grt", gv |-> x] : x \in PrimGo \cup Comp1 \cup Structs \cup Comp2Typed}
+Recs == {[t |-> GRec1, a |-> GNum("int", Qn(28))], [t |-> GRec2, a |-> GStrV(<<"a", "b">>), c |-> GBoolV(TRUE)], [t |-> GRec1, a |-> GNum("int", Qn(0))], [t |-> GRec2, a |-> GStrV(<<>>), c |-> GBoolV(FALSE)]}
+RtLines == {[k |-> "grt", gv |-> x] : x \in PrimGo \cup Comp1 \cup Structs \cup Comp2Typed \cup Recs \cup {SliceOf(GRec2, <<r>>, FALSE) : r \in {x \in Recs : x.t = GRec2}}}
 \* cty values x target Go types
 Targets == {GPrim(k) : k \in {"int", "int8", "uint16", "float32", "float64", "string", "bool"}} \cup {GSlice(GPrim("int")), GSlice(GPrim("string")), GMap(GPrim("int")), GMap(GPrim("string")),
-            GPtr(GPrim("int")), GPtr(GPrim("string")), GPtr(GSlice(GPrim("int"))), GStruct, GCty, GSlice(GCty), GSlice(GStruct), GMap(GPtr(GPrim("string")))}
+            GPtr(GPrim("int")), GPtr(GPrim("string")), GPtr(GSlice(GPrim("int"))), GStruct, GRec1, GRec2, GCty, GSlice(GCty), GSlice(GStruct), GMap(GPtr(GPrim("string")))}
 IntoVals == UNION {TakeN(AllVals(t), 8) \cup TakeN(UnkVals(t), 2) \cup {WithMk(v, <<"m1">>) : v \in TakeN(Vals(t, W), 1)} \cup UNION {TakeN(Weak1(v, TRUE), 2) : v \in TakeN(Vals(t, W), 2)}
                    : t \in PrimTypes \cup VT1 \cup TakeN(VT2, 5)} \cup {DynVal, Null(TDyn)}
 IntoLines == {[k |-> "ginto", vals |-> SetToSeq(IntoVals), gts |-> SetToSeq(Targets)]}
